@@ -35,6 +35,20 @@ CHECKS = {
    note="a little-endian host with WASM_ENDIAN forced to big; the 'translator itself on a big-endian host' clause (buffer.h) is not reachable in this sandbox and is not claimed", ref="5/C19"),
 }
 
+E2 = "E2 simxl: every w2c2/*.c of the working tree (main renamed w2c2_main) run in a forked child per simulated run on a tmpfs scratch tree; pthread pool under the simcore baton scheduler (preemption at sync ops, I/O calls, instrumented loads/stores), simulated CPU count/exit, fopen/fclose faults, record-and-refuse monitor on mutating libc calls; clang ASan + memory-related UBSan checks"
+CHECKS.update({
+ "C09": dict(engine="simxl", cat="exploration", tech="deterministic simulation: seeded schedules of the producer/worker pool (random walk + PCT, spurious wake-ups, thread-create failures) with byte-for-byte comparison of every output set against the unpreempted single-thread run; auxiliary compile and spec-assert behaviour samples for option variants",
+   text="The translator's worker pool runs under the seeded scheduler for every sampled (module, option combination, output path): termination, exit status, the exact output file-name set and byte-identity of all files with the canonical '-t 1' unpreempted run decide schedule/thread-count independence. Because option equivalence of behaviour is not a schedule property, a stratified sample of canonical outputs is additionally compiled file-by-file and spec-suite modules are built and executed under 7 option variants (pretty, -f, -g, -m, gnu-ld, threads) with their assert transcripts compared to the default build.",
+   note="interleavings are sequentially consistent; behaviour equivalence across options is sampled (not simulated): 6 modules quick / 80 thorough, stratified by data-segment shape; build-configuration variants (no pthreads, bundled getopt/libgen) are not part of the quick tier", ref="5/C09"),
+ "C10": dict(engine="simxl", cat="fault_enumeration", tech="deterministic simulation with torn-input fault enumeration: every run serves only the first k bytes of a valid module (k sampled; exhaustive for small modules in the thorough tier) under a seeded option/schedule swarm, ASan/UBSan-memory as oracle",
+   text="Valid modules (96 seeded synthetic ones with wild UTF-8/punctuation/long names, many locals, deep nesting, duplicated bodies + 48 spec-suite modules + coremark) and their proper prefixes are translated under seeded option combinations and worker schedules; the run must exit 0 (valid) or exit 0 / non-zero with a diagnostic (prefix), never die on a signal, sanitizer report, assertion or hang.",
+   note="allocation failures and write errors are not injected (outside the statement); sanitizer set = address + null/bounds/alignment/object-size/nonnull (memory operations), not arithmetic UB", ref="5/C10"),
+ "C20": dict(engine="simxl", cat="exploration", tech="deterministic simulation: invariant monitor at every mutating libc call plus before/after diff of a real scratch tree, across seeded options, path shapes, near-miss decoy files, worker schedules and fopen/fclose faults",
+   text="Each run builds a scratch tree with the input (sometimes inside the output directory), a reference module and 4-13 decoy files whose names nearly match the implementation-file pattern, inside and outside the output directory; the translator may create/overwrite only out.c, its header, [sd]<10 digits>.c and 'datasegments' in the output directory and, with -c, delete only names matching the pattern - checked at the call and by diffing the tree, also after injected fopen/fclose errors.",
+   note="calls are seen at libc entry points; a raw syscall would only be caught by the tree diff", ref="5/C20"),
+})
+
+
 def main():
     checks = []
     for pid in sorted(CHECKS):
@@ -54,9 +68,6 @@ def main():
     na = [{"property_id": p, "reason": r} for p, r in NA]
     pending = {
       "C06": "not claimed yet: the multi-instance interleaving engine for instantiation state is not finished",
-      "C09": "not claimed yet: translator worker-pool simulation (E2) under construction",
-      "C10": "not claimed yet: translator fault-enumeration (E2) under construction",
-      "C20": "not claimed yet: translator file-layer monitor (E2) under construction",
       "C12": "not claimed yet: WASI simulation (E3) under construction",
       "C13": "not claimed yet: WASI simulation (E3) under construction",
       "C14": "not claimed yet: WASI simulation (E3) under construction",
@@ -77,6 +88,7 @@ def main():
       },
       "engines": [
         {"name": "simrt", "path": "engines/simrt", "serves_properties": sorted(p for p in CHECKS if CHECKS[p]["engine"] == "simrt"), "kind_free_text": E1},
+        {"name": "simxl", "path": "engines/simxl", "serves_properties": sorted(p for p in CHECKS if CHECKS[p]["engine"] == "simxl"), "kind_free_text": E2},
       ],
       "checks": checks,
       "notes": "Deterministic simulation with fault injection (see DESIGN.md). Genuine defects found and repaired by unguarded 'fix:' commits in /repo: %s; they are listed in known_findings.json as fixed." % ", ".join(fixes()),
